@@ -17,7 +17,9 @@ for d in seeded/_incoming/*/ seeded/C*/; do
   cd /verif
   if [ $how = noapply ]; then echo -e "$n\t$prop\tnoapply\t-" >> $out; git -C /repo checkout -q -- .; continue; fi
   if ! (cd /repo && GOFLAGS=-mod=mod GOPROXY=off go build ./... >/dev/null 2>&1); then echo -e "$n\t$prop\t$how\tdoes-not-compile" >> $out; git -C /repo checkout -q -- .; continue; fi
+  cp "evidence/$prop.json" "build/evidence_$prop.keep" 2>/dev/null
   res=$(./check $prop --tier quick 2>&1 | grep -E "^(OK|VIOLATION)" | tail -1 | cut -c1-120)
+  [ -f "build/evidence_$prop.keep" ] && mv "build/evidence_$prop.keep" "evidence/$prop.json"
   echo -e "$n\t$prop\t$how\t$res" >> $out
   git -C /repo checkout -q -- . ; git -C /repo clean -fdq
 done
